@@ -14,15 +14,15 @@ func init() {
 	property("C09",
 		"Static conformance of text handling: (a) the terminator table is {plain: $, ascii: \\0, braille: $} and the terminator is appended exactly when the text does not already end with it, unknown types unchanged; (b) every text value recorded for hoisting or returned for a text statement is the terminator-formatted content with the very string type that is recorded/returned next to it; (c) the string type travels unchanged into ast.Text and selects the directive (default .string), and in the lexer a word directly followed by a quote is a string-type prefix whatever it spells; (d) the parallel text/type maps of a text poryswitch are read with the same key on every path; (e) one directive per line: emitText ranges over all lines of the value split at the same separator the lexer puts between adjacent literals and format() puts after a break. format() hands back the prefix literal iff a prefix was read (C09.c); every return of formatTextTerminator is one of the three documented ones (C09.a); every line gets its directive (C09.e); string literals are spelled by the source (C19.f); every program text is emitted (C10.f).",
 		[]string{"contents of string literals (what the lexer accepts inside quotes) are not decided", "go/ssa lowering is faithful to the source"},
-		"C09.a", "C09.b", "C09.c", "C09.d", "C09.e", "C06.b", "C06.c", "C07.c", "C19.c", "C19.f", "C10.f", "C12.f", "C19.b", "C08.e", "C18.m", "C17.f", "C17.h", "C10.e")
+		"C09.a", "C09.b", "C09.c", "C09.d", "C09.e", "C06.b", "C06.c", "C07.c", "C19.c", "C19.f", "C10.f", "C12.f", "C19.b", "C08.e", "C18.m", "C17.f", "C17.h", "C10.e", "C18.d", "C18.n")
 	property("C10",
 		"Static conformance of command pass-through: (a) every iteration of the argument loop either appends the (constant-substituted) literal of the current token, closes the argument, or takes one inline arm, and then advances by exactly one token; the loop ends at the matching ')' with parenthesis depth counted on '(' / ')', and a non-empty last argument is flushed; (b) a command is rendered as TAB name [SPACE args joined by ', '] NEWLINE from constant formats; (c) statements of a chunk are rendered in order, one render per element; (d) the command name is the token literal, never constant-substituted. Hoisted-argument patching is covered by C06.a/b/c. Emit hands every top-level statement to its emitter and writes the result (C10.f); every non-nil top-level statement is kept (C10.e); the depth counter only counts (C10.a); token literals are source text (C19.f); positions never decide parsing (C16.d). The tree is written by its maker (C10.g): node fields are stored by the function that allocates the node (or a helper it hands the fresh node to), node lists only grow by parsed statements, a sub-tree stored into a node is what a token-consuming parser returned; order-bearing lists are never sorted, cut, overwritten in place or picked through (C08.e); every emitter function returns the read-out of its own builder and writes a computed text once (C10.f).",
 		[]string{"go/ssa lowering is faithful to the source"},
-		"C10.a", "C10.b", "C10.c", "C10.d", "C10.e", "C06.a", "C06.b", "C06.c", "C12.a", "C13.a", "C15.d", "C01.b", "C08.a", "C18.g", "C01.h", "C19.e", "C10.f", "C19.f", "C16.d", "C13.d", "C08.e", "C10.g", "C19.g", "C18.m", "C17.h", "C01.g", "C19.c", "C19.d", "C01.c", "C01.d", "C14.d")
+		"C10.a", "C10.b", "C10.c", "C10.d", "C10.e", "C06.a", "C06.b", "C06.c", "C12.a", "C13.a", "C15.d", "C01.b", "C08.a", "C18.g", "C01.h", "C19.e", "C10.f", "C19.f", "C16.d", "C13.d", "C08.e", "C10.g", "C19.g", "C18.m", "C17.h", "C01.g", "C19.c", "C19.d", "C01.c", "C01.d", "C14.d", "C18.d", "C18.n")
 	property("C11",
 		"Static conformance of AutoVar handling: (a) an AutoVar operand is recognised as an identifier configured in autovar_commands, parsed with the ordinary command parser, and its result var is the configured name or the argument at the configured position (bounds-checked), taken verbatim; (b) the parsed command is attached as the preamble of exactly the leaf whose operand is that result var (type VAR), and for switch it is placed immediately before the switch statement; (c) the leaf renders its preamble with the ordinary command renderer exactly once, before the comparison, iff present; each leaf owns one chunk and loops re-enter at the condition's entry chunk (C02.e, C01.e). The command is attached exactly when its result var is the operand (C11.b); the shipped command_config.json keys are the JSON names of the decoded structs (C11.d).",
 		[]string{"scheme argument of DESIGN §4 C11"},
-		"C11.a", "C11.b", "C11.c", "C02.e", "C02.i", "C06.c", "C10.e", "C01.e", "C02.d", "C01.h", "C11.d", "C10.g", "C18.m", "C10.f", "C18.n")
+		"C11.a", "C11.b", "C11.c", "C02.e", "C02.i", "C06.c", "C10.e", "C01.e", "C02.d", "C01.h", "C11.d", "C10.g", "C18.m", "C10.f", "C18.n", "C18.d")
 
 	register(&Rule{ID: "C09.a", Doc: "terminator table and append-iff-missing", Floor: 5, Run: c09a})
 	register(&Rule{ID: "C09.b", Doc: "recorded / returned text is terminator-formatted with its own string type", Floor: 6, Run: c09b})
